@@ -537,6 +537,8 @@ impl ActionProvider for ReferenceInlineSection {
         Some(target_id)
             .filter(|target_id| tree.get(*target_id).is_reference())
             .filter(|target_id| context.key_exists(&tree.reference_key(*target_id)))
+            // a note cannot be inlined into itself
+            .filter(|target_id| tree.reference_key(*target_id) != key)
             .filter(|target_id| tree.get_surrounding_section_id(*target_id).is_some())
             .map(|_| Action {
                 title: "Inline section".to_string(),
@@ -551,6 +553,8 @@ impl ActionProvider for ReferenceInlineSection {
         Some(target_id)
             .filter(|target_id| tree.get(*target_id).is_reference())
             .filter(|target_id| context.key_exists(&tree.reference_key(*target_id)))
+            // a note cannot be inlined into itself
+            .filter(|target_id| tree.reference_key(*target_id) != key)
             .and_then(|target_id| {
                 let inline_key = context.collect(&key).reference_key(target_id);
 
@@ -591,6 +595,8 @@ impl ActionProvider for ReferenceInlineQuote {
         Some(target_id)
             .filter(|target_id| tree.get(*target_id).is_reference())
             .filter(|target_id| context.key_exists(&tree.reference_key(*target_id)))
+            // a note cannot be inlined into itself
+            .filter(|target_id| tree.reference_key(*target_id) != key)
             .map(|_| Action {
                 title: "Inline quote".to_string(),
                 identifier: self.identifier(),
@@ -605,6 +611,8 @@ impl ActionProvider for ReferenceInlineQuote {
         Some(target_id)
             .filter(|target_id| tree.get(*target_id).is_reference())
             .filter(|target_id| context.key_exists(&tree.reference_key(*target_id)))
+            // a note cannot be inlined into itself
+            .filter(|target_id| tree.reference_key(*target_id) != key)
             .map(|reference_id| {
                 let inline_key = context.collect(&key).reference_key(reference_id);
 
@@ -746,6 +754,7 @@ impl ActionProvider for ReferenceInlineList {
                     .unwrap_or(false)
             })
             .filter(|node_id| context.key_exists(&tree.reference_key(*node_id)))
+            .filter(|node_id| tree.reference_key(*node_id) != key)
             .map(|_| Action {
                 title: "Inline list".to_string(),
                 identifier: self.identifier(),
@@ -764,6 +773,7 @@ impl ActionProvider for ReferenceInlineList {
                     .unwrap_or(false)
             })
             .filter(|node_id| context.key_exists(&tree.reference_key(*node_id)))
+            .filter(|node_id| tree.reference_key(*node_id) != key)
             .map(|reference_id| {
                 let inline_key = context.collect(&key).reference_key(reference_id);
 
